@@ -121,7 +121,7 @@ def gen_trace(seed, config, prop, tier):
     inputs = [gen_input(r_in, tier, prop) for _ in range(n_inputs)]
     steps = []
     for s in range(n_inputs):
-        steps.append({"op": "parse", "slot": s, "input": s})
+        steps.append({"op": "parse", "slot": s, "input": s, "same_parser": True})
     nops = r_op.randint(3, 9)
     ne_lo = 1 if prop == "C11" else 2
     # swarm: per-run enabled fault kinds and rates
@@ -161,7 +161,8 @@ def gen_trace(seed, config, prop, tier):
         elif op == "frame":
             steps.append({"op": "frame", "slot": slot, "gt": r_op.random() < 0.5, "keep": r_op.random() < 0.6})
         elif op == "parse":
-            steps.append({"op": "parse", "slot": slot, "input": r_op.randrange(n_inputs)})
+            steps.append({"op": "parse", "slot": slot, "input": r_op.randrange(n_inputs),
+                          "same_parser": r_op.random() < 0.5})
         else:
             steps.append({"op": "reduce_amount", "slot": slot})
         if "gc" in kinds_A and r_f.random() < p_fault:
@@ -175,7 +176,7 @@ def gen_trace(seed, config, prop, tier):
 
 # ------------------------------------------------------------------ executor
 class Slot:
-    __slots__ = ("mesh", "dead", "frames", "origin", "last_gm", "tainted", "zone")
+    __slots__ = ("mesh", "dead", "frames", "origin", "last_gm", "tainted", "zone", "parser")
 
     def __init__(self):
         self.mesh = None
@@ -185,9 +186,10 @@ class Slot:
         self.last_gm = None   # (ne, rse, post snapshot) of the last successful generate_mesh
         self.tainted = False  # a C09 violation was reported on this mesh: nothing later is judged on it
         self.zone = None      # (cells, vertices) a merge cascade of the last generate_mesh could touch
+        self.parser = {}      # input index -> {"obj": parser object} kept by the caller between parses
 
 
-def _build_input(fs, inp, name):
+def _build_input(fs, inp, name, keep=None):
     k = inp["kind"]
     if k == "voronoi":
         T = TS.build_tissue(inp["spec"])
@@ -203,7 +205,7 @@ def _build_input(fs, inp, name):
     if k in ("image", "raster"):
         data = shipped.image_bytes(inp)
         return P.build_skeleton(fs, data, inp.get("mirror_y", False), inp.get("reduce_amount", False),
-                                inp.get("rescale"), inp.get("offset"))
+                                inp.get("rescale"), inp.get("offset"), keep)
     raise ValueError(k)
 
 
@@ -354,8 +356,13 @@ def run_trace(fs, trace, flog, preempt, collect_states=False):
                 mesh = None
                 flog.phase = "call"
                 try:
+                    keep = None
+                    if st.get("same_parser"):
+                        keep = sl.parser.setdefault(st["input"] % len(inputs), {})
+                        if keep.get("obj") is not None:
+                            probe("reparse-with-the-same-parser-object")
                     with seams.quiet() as out, preempt.during(at):
-                        mesh = _build_input(fs, inp, f"mem:{sid}")
+                        mesh = _build_input(fs, inp, f"mem:{sid}", keep)
                     noise = len(out.getvalue())
                 except Exception as e:  # parser failed: no mesh
                     outcome = "exc:" + _exc_class(e)
